@@ -29,4 +29,15 @@ for name in sorted(sp.get("hash_literals", {})):
     if got != sp["hash_literals"][name]:
         print("literals changed", name, [x for x in sp["hash_literals"][name] if x not in got], "->", [x for x in got if x not in sp["hash_literals"][name]])
         sp["hash_literals"][name] = got
+# literals of the CPC low-level codec (the compressed stream is a published cross-language format)
+sp.setdefault("codec_literals", {})
+for name in L.CODEC_FUNCS:
+    cands = L._hash_fn_cands(fns, name)
+    if not cands:
+        print("NOT FOUND", name)
+        continue
+    got = L.codec_literal_set(cands[0], {k: v for k, v in fns.items() if str(k).startswith("cpc/")})
+    if got != sp["codec_literals"].get(name):
+        print("codec literals changed", name, sp["codec_literals"].get(name), "->", got)
+        sp["codec_literals"][name] = got
 json.dump(sp, open(p, "w"), indent=1)
